@@ -520,6 +520,13 @@ LimitedIff ==
      /\ \A j \in ISlots : (inc[j].st \notin {"queued", "open"} /\ inc'[j].st \in {"queued", "open"}) => inc'[j].lim = LimOf(op'.m)
      /\ \A j \in ISlots : (inc[j].st = "queued" /\ inc'[j].st = "open") => inc'[j].lim = inc[j].lim]_vars
 
+(* liveness (with time): whatever waits on a timer is decided - a STOP stream is answered (K7: "or refused after the *)
+(* accept timeout"), a dial that talks to a relay or waits for one that does comes to an end or to the upgrader       *)
+LiveSpec == Init /\ [][Next]_vars /\ WF_vars(Tick)
+StopDecided == \A j \in ISlots : (inc[j].st \in {"read", "queued"}) ~> (inc[j].st \notin {"read", "queued"})
+DialDecided == \A i \in DSlots : (dial[i].st \in {"ns", "resp"}) ~> (dial[i].st \notin {"ns", "resp"})
+WaiterDecided == \A i \in DSlots : (dial[i].st = "wait") ~> (dial[i].st # "wait")
+
 (* vacuity guards: expected to be violated                                                            *)
 ReachTwoCircuits == ~(\E r \in Relays : Circuits(r) >= 2)
 =============================================================================
